@@ -50,6 +50,7 @@ func r2pUnion(as ...r2pAtoms) r2pAtoms {
 
 type r2pRebuild struct {
 	*r2pEnv
+	mv       *r3pMoves // R-context-move collector (rules_r3print_move.go), may be nil
 	variants map[*types.Func]bool
 	resType  types.Type // result type of the function under analysis (variant producers: the list type)
 	isVar    bool
@@ -147,6 +148,9 @@ func (rb *r2pRebuild) eval(st *r2pState, x ast.Expr) (r2pAtoms, string) {
 			a, _ := rb.eval(st, el)
 			as = append(as, a)
 		}
+		if rb.mv != nil {
+			rb.mv.onLiteral(rb, st, y)
+		}
 		return r2pUnion(as...), ""
 	case *ast.CallExpr:
 		if tv, ok := info.Types[y.Fun]; ok && tv.IsType() {
@@ -181,6 +185,9 @@ func (rb *r2pRebuild) eval(st *r2pState, x ast.Expr) (r2pAtoms, string) {
 			}
 		} else if !rb.nodeCarrying(rt) {
 			return nil, ""
+		}
+		if rb.mv != nil {
+			rb.mv.onCall(rb, st, y)
 		}
 		var as []r2pAtoms
 		contributors, derived := 0, ""
@@ -324,6 +331,9 @@ func (rb *r2pRebuild) assignIdent(st *r2pState, id *ast.Ident, rhs ast.Expr, a r
 		delete(st.elems, o)
 	}
 	rb.noteAssign(st, o, rhs)
+	if rb.mv != nil && rhs != nil {
+		rb.mv.onAssign(rb, st, o, rhs)
+	}
 	if _, aliased := st.alias[o]; !aliased {
 		if derived != "" {
 			st.alias[o] = derived
@@ -338,6 +348,7 @@ func (rb *r2pRebuild) onStmt(st *r2pState, s ast.Stmt) (*r2pState, bool) {
 	info := rb.info
 	switch x := s.(type) {
 	case *ast.AssignStmt:
+		rb.noteFieldStores(st, x)
 		if len(x.Lhs) != len(x.Rhs) {
 			if len(x.Rhs) == 1 {
 				a, _ := rb.eval(st, x.Rhs[0])
@@ -552,17 +563,23 @@ func r2pVariantProducers(m *travModel, p *packages.Package) map[*types.Func]bool
 // ---------------------------------------------------------------------------
 
 type r2pRebuildUnit struct {
-	key      string
-	pos      token.Pos
-	root     string
-	rootType types.Type
-	host     ast.Stmt
-	clause   *ast.CaseClause
-	skip     map[ast.Node]bool
-	desc     string
+	perSwitch map[ast.Stmt]map[*ast.CaseClause]bool
+	key       string
+	pos       token.Pos
+	root      string
+	rootType  types.Type
+	host      ast.Stmt
+	clause    *ast.CaseClause
+	skip      map[ast.Node]bool
+	desc      string
 }
 
 func ruleR2pRebuild(c *Ctx) []Obligation {
+	return r2pRebuildAll(c, nil)
+}
+
+// r2pRebuildAll runs the rebuild analysis over optimizer and fuzzer; mv (optional) collects the context moves.
+func r2pRebuildAll(c *Ctx, mv *r3pMoves) []Obligation {
 	m := travGetModel(c)
 	r := &travRun{c: c, m: m, tc: newTravCollector(m), hasUnit: map[string]bool{}}
 	var obs []Obligation
@@ -583,7 +600,7 @@ func ruleR2pRebuild(c *Ctx) []Obligation {
 				continue
 			}
 			env := r2pNewEnv(c, m, p, fd)
-			rb := &r2pRebuild{r2pEnv: env, variants: variants, resType: sg.Results().At(0).Type(), isVar: variants[fn]}
+			rb := &r2pRebuild{r2pEnv: env, mv: mv, variants: variants, resType: sg.Results().At(0).Type(), isVar: variants[fn]}
 			if !rb.nodeCarrying(rb.resType) {
 				continue
 			}
@@ -606,33 +623,50 @@ func ruleR2pRebuild(c *Ctx) []Obligation {
 				}
 				if n, ok := r2pDeref(pt).(*types.Named); ok && m.codeIfc[n] {
 					found := false
+					// one unit per node kind: in every dispatch over this parameter the kind enters the clause(s) naming it
+					var kinds []*travStruct
+					seenKind := map[*travStruct]bool{}
 					for _, d := range ds {
 						if d.subject != pv {
 							continue
 						}
-						seen := map[string]int{}
 						for _, cc := range d.clauses {
 							for _, s := range d.kinds[cc] {
-								if s.IsSem {
-									continue
+								if !s.IsSem && !seenKind[s] {
+									seenKind[s] = true
+									kinds = append(kinds, s)
 								}
-								found = true
-								label := s.Short()
-								if s.Kind != nil {
-									label = s.Kind.Name()
-								}
-								seen[label]++
-								if seen[label] > 1 {
-									continue
-								}
-								skip := map[ast.Node]bool{}
-								for _, o := range d.outer {
-									skip[o] = true
-								}
-								units = append(units, &r2pRebuildUnit{key: base + "|case " + label + "|every child reaches the output", pos: cc.Pos(),
-									root: pv.Name(), rootType: s.T, host: d.sw, clause: cc, skip: skip, desc: s.Short()})
 							}
 						}
+					}
+					for _, s := range kinds {
+						found = true
+						label := s.Short()
+						if s.Kind != nil {
+							label = s.Kind.Name()
+						}
+						per := map[ast.Stmt]map[*ast.CaseClause]bool{}
+						skip := map[ast.Node]bool{}
+						var first *ast.CaseClause
+						for _, d := range ds {
+							if d.subject != pv {
+								continue
+							}
+							set := map[*ast.CaseClause]bool{}
+							for _, cc := range d.clauses {
+								for _, s2 := range d.kinds[cc] {
+									if s2 == s {
+										set[cc] = true
+										if first == nil {
+											first = cc
+										}
+									}
+								}
+							}
+							per[d.sw] = set
+						}
+						units = append(units, &r2pRebuildUnit{key: base + "|case " + label + "|every child reaches the output", pos: first.Pos(),
+							root: pv.Name(), rootType: s.T, perSwitch: per, skip: skip, desc: s.Short()})
 					}
 					if !found {
 						units = append(units, &r2pRebuildUnit{key: base + "|every child reaches the output", pos: fd.Pos(), root: pv.Name(), rootType: pv.Type(), desc: types.TypeString(pv.Type(), travQual)})
@@ -660,7 +694,7 @@ func (rb *r2pRebuild) run(u *r2pRebuildUnit) Obligation {
 	rb.root, rb.rootType = u.root, u.rootType
 	body, loops := r2pWrap(rb.fd.Body)
 	rb.loops = loops
-	filter := &r2pClauseFilter{loops: loops, host: u.host, clause: u.clause, skip: u.skip}
+	filter := &r2pClauseFilter{loops: loops, host: u.host, clause: u.clause, skip: u.skip, perSwitch: u.perSwitch}
 	type witness struct {
 		what, trace string
 	}
@@ -671,15 +705,15 @@ func (rb *r2pRebuild) run(u *r2pRebuildUnit) Obligation {
 		Clone:  r2pClone,
 		OnStmt: rb.onStmt,
 		OnCond: func(st *r2pState, cond ast.Expr, taken bool) (*r2pState, bool) {
+			if rb.mv != nil && rb.mv.onCond(rb, st, cond, taken) {
+				return st, true
+			}
 			return st, rb.applyCond(st, cond, taken)
 		},
 		OnCase: func(st *r2pState, sw *ast.SwitchStmt, vals []ast.Expr, others []ast.Expr) (*r2pState, bool) {
 			cc := r2pClauseOf(sw, vals)
 			if cc == nil {
-				if o := loops.orig[sw]; o != nil && u.host != nil && ast.Stmt(o.(*ast.SwitchStmt)) == u.host {
-					return st, false
-				}
-				return st, true
+				return st, filter.allowNone(sw)
 			}
 			if !filter.allow(sw, cc) {
 				return st, false
